@@ -4,26 +4,33 @@ From Coq Require Import List NArith ZArith Bool Arith.
 From VF Require Import Base.Sx PyVal.Val PyVal.Codec Merge.Merge Yaml.Target Yaml.Exec Yaml.Cache.
 Import ListNotations.
 
-(* one get_data call of the history as data: system, preceding version, snapshot, render and match tables *)
-Record kcall := { q_sys : str; q_pv : str; q_tree : fstree; q_render : list (str * res str); q_match : list (str * res bool) }.
-Record case := { cV : variants; cC : config; cCap : nat; cYload : list (str * res val); cCalls : list kcall }.
+(* one get_data call of the history as data: system, preceding version, snapshot, render table *)
+Record kcall := { q_sys : str; q_pv : str; q_tree : fstree; q_render : list (str * res str) }.
+(* the target matcher is a table per (system id, preceding-data version): the version identifies the data *)
+Definition mgroup := (str * str * list (str * res bool))%type.
+Record case := { cV : variants; cC : config; cCap : nat; cYload : list (str * res val);
+                 cMatch : list mgroup; cCalls : list kcall }.
+Definition group_table (sys pv : str) (gs : list mgroup) : list (str * res bool) :=
+  match find (fun g => str_eqb sys (fst (fst g)) && str_eqb pv (snd (fst g))) gs with
+  | Some g => snd g
+  | None => []
+  end.
+Definition mo_of (c : case) (sys pv : str) : str -> res bool := table_fun (group_table sys pv (cMatch c)).
 (* per call: what the long-lived source returned and what a newly constructed source returned *)
 Definition obs := list (res (dict * str) * res (dict * str)).
 
-Definition mk_call (q : kcall) : call :=
+Definition mk_call (c : case) (q : kcall) : call :=
   {| k_sys := q_sys q; k_pv := q_pv q; k_tree := q_tree q;
-     k_render := table_fun (q_render q); k_match := table_fun (q_match q) |}.
+     k_render := table_fun (q_render q); k_match := mo_of c (q_sys q) (q_pv q) |}.
 
 Definition run_model (c : case) : obs :=
-  let ks := map mk_call (cCalls c) in
+  let ks := map (mk_call c) (cCalls c) in
   let yl := table_fun (cYload c) in
   List.combine (run_history (cV c) (cC c) model_H yl (cCap c) [] ks)
           (map (fresh_result (cV c) (cC c) model_H yl) ks).
 
 Definition spec_of (c : case) (q : kcall) : res dict :=
-  get_data_spec (cC c) (table_fun (q_render q)) (table_fun (cYload c)) (table_fun (q_match q)) (q_tree q).
-Definition empty_case_of (c : case) (q : kcall) : bool :=
-  empty_pieces_case (cC c) (table_fun (q_render q)) (table_fun (cYload c)) (table_fun (q_match q)) (q_tree q).
+  get_data_spec (cV c) (cC c) model_H (table_fun (q_render q)) (table_fun (cYload c)) (mo_of c (q_sys q) (q_pv q)) (q_tree q).
 
 Definition same_dict (a b : dict) : bool := same (VDict a) (VDict b).
 
@@ -81,11 +88,16 @@ Definition gres_of_sx : sx -> option (res (dict * str)) :=
                       end).
 Definition kcall_of_sx (x : sx) : option kcall :=
   match x with
-  | L [B sys; B pv; tr; rt; mt] =>
-      match tree_of_sx tr, asListOf (entry_of_sx asB) rt, asListOf (entry_of_sx asBool) mt with
-      | Some t, Some r, Some m => Some {| q_sys := sys; q_pv := pv; q_tree := t; q_render := r; q_match := m |}
-      | _, _, _ => None
+  | L [B sys; B pv; tr; rt] =>
+      match tree_of_sx tr, asListOf (entry_of_sx asB) rt with
+      | Some t, Some r => Some {| q_sys := sys; q_pv := pv; q_tree := t; q_render := r |}
+      | _, _ => None
       end
+  | _ => None
+  end.
+Definition mgroup_of_sx (x : sx) : option mgroup :=
+  match x with
+  | L [B sys; B pv; mt] => option_map (fun m => (sys, pv, m)) (asListOf (entry_of_sx asBool) mt)
   | _ => None
   end.
 Definition pair_of_sx (x : sx) : option (res (dict * str) * res (dict * str)) :=
@@ -96,12 +108,12 @@ Definition pair_of_sx (x : sx) : option (res (dict * str) * res (dict * str)) :=
 
 Definition decode (x : sx) : option (case * obs) :=
   match x with
-  | L [v; cfg; cap; yl; L calls; L io] =>
+  | L [v; cfg; cap; yl; L groups; L calls; L io] =>
       match variants_of_sx v, config_of_sx cfg, asNat cap, asListOf (entry_of_sx val_of_sx) yl,
-            omap' kcall_of_sx calls, omap' pair_of_sx io with
-      | Some v', Some c', Some n, Some y, Some ks, Some o =>
-          Some ({| cV := v'; cC := c'; cCap := n; cYload := y; cCalls := ks |}, o)
-      | _, _, _, _, _, _ => None
+            omap' mgroup_of_sx groups, omap' kcall_of_sx calls, omap' pair_of_sx io with
+      | Some v', Some c', Some n, Some y, Some gs, Some ks, Some o =>
+          Some ({| cV := v'; cC := c'; cCap := n; cYload := y; cMatch := gs; cCalls := ks |}, o)
+      | _, _, _, _, _, _, _ => None
       end
   | _ => None
   end.
